@@ -36,6 +36,9 @@ pub fn initial_states(seed: u64) -> Vec<(&'static str, Option<Vec<u8>>)> {
         ("keyring-with-non-ascii-comment-no-final-newline", Some(format!("# Schl\u{fc}ssel f\u{fc}r Zo\u{eb} \u{1F511}\n{}\n# \u{e9}nd", a.entry(true)).into_bytes())),
         ("keyring-with-crlf", Some(two.replace('\n', "\r\n").into_bytes())),
         ("keyring-behind-a-symlink", Some(two.clone().into_bytes())),
+        ("keyring-with-indented-section-headers", Some(two.replace("[Key]", "  [Key]").into_bytes())),
+        ("keyring-with-tab-indented-lines", Some(two.lines().map(|l| format!("\t{}", l)).collect::<Vec<_>>().join("\n").into_bytes())),
+        ("comment-only-file", Some(b"# keys go here\n# (none yet)\n".to_vec())),
         ("keyring-larger-than-8KiB", Some(format!("{}\n{}\n{}", "# long comment line that pads the keyring file beyond any small buffer size ....\n".repeat(130), a.entry(true), b.entry(false)).into_bytes())),
     ]
 }
